@@ -118,6 +118,48 @@ def sweep_blocks(ctx, codec, first_sizes):
         ctx.sample({'codec': codec, 'blocks': 3, 'blocked': True, 'file_bytes': 3042})
 
 
+def crafted_offsets(ctx, codec):
+    """Unblocked files whose bytes at 1012/1013 and 2026/2027 (where block trailers would sit) are steered one by one to the
+    pad value 0x40 or to something else, by choosing the characters of long text elements that cover those offsets."""
+    pad = bytes([0x40]).decode(codec)
+    other = 'A'
+    n = 0
+    for nrec_big in (1, 2, 3):
+        for pattern in range(16):
+            want = {1012: pattern & 1, 1013: pattern & 2, 2026: pattern & 4, 2027: pattern & 8}
+            msgs = []
+            for i in range(nrec_big):
+                msgs.append({'MTI': '1240', 'DE2': '5' * 16, 'DE54': other * 999, 'DE72': other * 999, 'DE111': other * (700 + 37 * i)})
+            msgs.append(small_message(3, 40))
+            # locate the offsets in the plain VBS stream and steer the characters that land there
+            pos = 0
+            for m in msgs:
+                rec = refcodec.encode(PACKAGED, codec, False, m)
+                res = refcodec.decode(PACKAGED, codec, False, rec, strict=True)
+                for kind, bit, s, e in res.frames:
+                    if kind == 'value' and PACKAGED[str(bit)]['field_type'] != 'FIXED' and isinstance(m.get('DE%d' % bit), str):
+                        for off, flag in want.items():
+                            rel = off - (pos + 4 + s)
+                            if 0 <= rel < e - s:
+                                v = m['DE%d' % bit]
+                                m['DE%d' % bit] = v[:rel] + (pad if flag else other) + v[rel + 1:]
+                pos += 4 + len(rec)
+            data = write_file(msgs, codec, False)
+            hit = {off: data[off] == 0x40 for off in want if off < len(data)}
+            n += 1
+            ctx.labels['crafted:1012-1013=' + ('pad' if hit.get(1012) else 'x') + ('pad' if hit.get(1013) else 'x')] += 1
+            res = check_valid(data, codec, False, f'writer-produced VBS file ({codec}) with bytes 1012/1013/2026/2027 steered to {hit}')
+            if res:
+                ctx.report(res[0], {'kind': 'crafted', 'codec': codec, 'nrec_big': nrec_big, 'pattern': pattern}, res[1])
+            data = write_file(msgs, codec, True)
+            res = check_valid(data, codec, True, f'writer-produced 1014 file ({codec}), crafted content')
+            n += 1
+            if res:
+                ctx.report(res[0], {'kind': 'crafted', 'codec': codec, 'nrec_big': nrec_big, 'pattern': pattern, 'blocked': True}, res[1])
+    ctx.bulk(n, nontrivial_distinct=n, label='crafted-offsets')
+    ctx.enumerated(f'unblocked writer output ({codec}) with each of the bytes 1012, 1013, 2026, 2027 steered to 0x40 / not 0x40 (all 16 combinations x 3 file shapes)')
+
+
 def hyp_files(ctx, n):
     @st.composite
     def cases(draw):
@@ -215,6 +257,8 @@ def tasks(tier, seed):
     t = [('invalid_classes', {})]
     for codec in ASCII_FAMILY + EBCDIC_FAMILY:
         t.append(('sweep_blocks', dict(codec=codec, first_sizes=[0, 300, 1500] if not full else [0, 300, 900, 1500, 3000, 5800])))
+    for codec in ('latin_1', 'cp500', 'cp037', 'ascii'):
+        t.append(('crafted_offsets', dict(codec=codec)))
     for i in range(4 if not full else 12):
         t.append(('hyp_files', dict(n=60 if not full else 500)))
     return t
@@ -236,6 +280,13 @@ def replay(case):
         msgs = grow_to_blocks(case['b'], first, case['variant'])
         data = write_file(msgs, case['codec'], case['blocked'])
         return check_valid(data, case['codec'], case['blocked'], 'replayed grown file')
+    if k == 'crafted':
+        c = harness.Ctx('C17', 'quick', 0)
+        crafted_offsets(c, case['codec'])
+        for sig, v in c.violations.items():
+            if v['case'].get('pattern') == case['pattern'] and v['case'].get('nrec_big') == case['nrec_big']:
+                return sig, v['message']
+        return next(((sig, v['message']) for sig, v in c.violations.items()), None)
     if k == 'msgs':
         data = write_file(list(case['msgs']), case['codec'], case['blocked'])
         return check_valid(data, case['codec'], case['blocked'], 'replayed file')
